@@ -112,4 +112,50 @@ def AllOK : Sys H K B V → Tree K B V → List (Op H K B V) → Prop
 /-- no LRU `Add` of the whole run reported an eviction -/
 def NoEviction (s : Sys H K B V) (ops : List (Op H K B V)) : Prop := (s.run ops).1.sc.evictions = s.sc.evictions
 
+/-- blocks that may receive an entry in the version map of key `k` through this operation: the block a state-level lookup
+    of `k` is issued at (memo), the hash of a committed block cache that writes `k` -/
+def Sys.cand (s : Sys H K B V) (k : K) : Op H K B V → List B
+  | .sget k' b => if k' = k then [b] else []
+  | .qget b k' => if k' = k then [b] else []
+  | .bget h k' =>
+    if k' = k then
+      match alookup s.bcs h with
+      | some bc => if (alookup bc.cache k').isSome then [] else [bc.base]
+      | none => []
+    else []
+  | .tget t k' =>
+    if k' = k then
+      match alookup s.tcs t with
+      | some tc =>
+        if (alookup tc.cache k').isSome then [] else
+        match tc.main with
+        | .block h =>
+          match alookup s.bcs h with
+          | some bc => if (alookup bc.cache k').isSome then [] else [bc.base]
+          | none => []
+        | .query b => [b]
+      | none => []
+    else []
+  | .bcommit h =>
+    match alookup s.bcs h with
+    | some bc => if (alookup bc.cache k).isSome then [bc.hash] else []
+    | none => []
+  | _ => []
+
+/-- the hash a commit operation publishes a link for -/
+def Sys.commitCand (s : Sys H K B V) : Op H K B V → List B
+  | .bcommit h =>
+    match alookup s.bcs h with
+    | some bc => [bc.hash]
+    | none => []
+  | _ => []
+
+def Sys.cands (s : Sys H K B V) (k : K) : List (Op H K B V) → List B
+  | [] => []
+  | op :: ops => s.cand k op ++ Sys.cands (s.step op).1 k ops
+
+def Sys.commitCands (s : Sys H K B V) : List (Op H K B V) → List B
+  | [] => []
+  | op :: ops => s.commitCand op ++ Sys.commitCands (s.step op).1 ops
+
 end Verif.SC
